@@ -156,7 +156,7 @@ type Node struct {
 	ID        int // identity
 	D         *DBFT
 	Timer     *VTimer
-	WatchFlag bool // Config.WatchOnly()
+	WatchFlag bool        // Config.WatchOnly()
 	ReadSkew  bool        // the clock may move between two reads of one call (see libNow)
 	Reads     []time.Time // clock readings served to the library during the current call
 	Crashed   bool
